@@ -1,6 +1,8 @@
 package symex
 
 import (
+	"crypto/sha256"
+	"go/types"
 	"strconv"
 	"strings"
 	"sync"
@@ -43,6 +45,25 @@ func decimalOf(s *smt.Term) (*smt.Term, bool) {
 		return s.Args[0], true
 	}
 	return nil, false
+}
+
+// allocNonNil builds a value of type t in which every pointer (down to the given depth) points to a
+// freshly allocated zero value, without forking on nil-ness.
+func (m *Machine) allocNonNil(t types.Type, name string, depth int) Value {
+	switch u := under(t).(type) {
+	case *types.Pointer:
+		if depth <= 0 {
+			return (*Ptr)(nil)
+		}
+		return &Ptr{Cell: m.newCell(m.allocNonNil(u.Elem(), name, depth-1), u.Elem(), name)}
+	case *types.Struct:
+		f := make([]Value, u.NumFields())
+		for i := range f {
+			f[i] = m.allocNonNil(u.Field(i).Type(), name+"."+u.Field(i).Name(), depth)
+		}
+		return &StructV{F: f}
+	}
+	return Zero(t)
 }
 
 // hexLen remembers the concrete byte length of byte strings that went through
@@ -129,6 +150,38 @@ func init() {
 	// statement proved for it holds for the real bit-cast; a counterexample would not replay.
 	I["math.Float64frombits"] = func(m *Machine, fn *ssa.Function, args []Value) Value {
 		return smt.UF("math.Float64frombits", smt.F64, args[0].(*smt.Term))
+	}
+
+	// sha256.Sum256 of a constant input is computed (exact); symbolic inputs keep the
+	// uninterpreted model of intrinsics.go.
+	generalSha256 := I["crypto/sha256.Sum256"]
+	I["crypto/sha256.Sum256"] = func(m *Machine, fn *ssa.Function, args []Value) Value {
+		if t, _ := m.sliceBytesTerm(args[0]); t.IsConst() {
+			sum := sha256.Sum256([]byte(t.S))
+			e := make([]Value, 32)
+			for i := range e {
+				e[i] = smt.BVC(8, uint64(sum[i]))
+			}
+			return &ArrayV{E: e}
+		}
+		return generalSha256(m, fn, args)
+	}
+
+	// Package initialisation of btcd/txscript evaluates `new(big.Int).Rsh(btcec.S256().N, 1)`
+	// (half the curve order, used only by signature-encoding checks).  math/big and the curve are
+	// not executed: S256() is an allocated curve object with opaque contents, Rsh leaves an opaque
+	// big.Int in the receiver.  Any later arithmetic on these values is still a havocked math/big
+	// call (=> inconclusive), so nothing is decided from them.
+	I["github.com/btcsuite/btcd/btcec/v2.S256"] = func(m *Machine, fn *ssa.Function, args []Value) Value {
+		return m.allocNonNil(fn.Signature.Results().At(0).Type(), "btcec.S256", 4)
+	}
+	I["(*math/big.Int).Rsh"] = func(m *Machine, fn *ssa.Function, args []Value) Value {
+		z := args[0].(*Ptr)
+		if z == nil {
+			m.end("panic", "nil *big.Int receiver")
+		}
+		z.store(&OpaqueObj{Kind: "big.Int", T: m.ufOver("big.Rsh", smt.Str, args[2])})
+		return z
 	}
 
 	// bytes.NewReader: an opaque reader over the bytes; only parsers that are overridden by a
